@@ -182,6 +182,25 @@ func run(g int, ops *js.Object) {
 	logOp(g, n, "done", nil)
 }
 
+// objCallback is ONE exposed function registered under every echoobj callback name, so that the same
+// externalised function is called several times. It takes a map and an interface value (the simulator hands
+// both the SAME JavaScript object, mutated between calls) plus the callback index, and reports what it received.
+func objCallback(m map[string]int, x interface{}, idx int) *js.Object {
+	g := -(idx + 1)
+	defer func() { done <- g }()
+	res := obj()
+	logOp(g, 0, "inv", nil)
+	res.Set("a", len(m)*1000+m["n"])
+	if xm, ok := x.(map[string]interface{}); ok {
+		if f, ok := xm["n"].(float64); ok {
+			res.Set("b", len(xm)*1000+int(f))
+		}
+	}
+	m["poison"] = 1 // the callee may modify its own copy; the next call must not see it
+	logOp(g, 0, "ret", res)
+	return res
+}
+
 // callback bodies: invoked by the simulated event loop, outside any goroutine.
 func makeCallback(idx int, cb *js.Object) func(a int, s string) *js.Object {
 	return func(a int, s string) *js.Object {
@@ -227,7 +246,12 @@ func main() {
 		js.Global.Set("identFirst3", identFn3)
 		firsts = [3]*js.Object{js.Global.Get("identFirst"), js.Global.Get("identFirst2"), js.Global.Get("identFirst3")}
 		for i := 0; i < ncb; i++ {
-			js.Global.Set("cb"+js.Global.Get("String").Invoke(i).String(), makeCallback(i, cbs.Index(i)))
+			name := "cb" + js.Global.Get("String").Invoke(i).String()
+			if cbs.Index(i).Get("kind").String() == "echoobj" {
+				js.Global.Set(name, objCallback)
+			} else {
+				js.Global.Set(name, makeCallback(i, cbs.Index(i)))
+			}
 		}
 	}
 	start := sc.Get("start")
